@@ -348,13 +348,27 @@ class ImplWorld:
         #  nobody's business)
         given = it.configuration
         config = list(given)
-        if isinstance(given, list):
-            given.clear()
+        self._handed('the configuration of interpreter %d' % i, given)
         return {'config': config, 'ctx': ctx, 'time': t,
                 'final': bool(it.final), 'legal': oracles.legal(it.statechart, list(it.configuration)) is True,
                 'unsupported': False}
 
+    def _handed(self, what, given):
+        """a list the interpreter hands out says what was the case when it was asked: a client may keep it, and
+        nothing the interpreter does later shows in it (the harness itself never writes to it)"""
+        if isinstance(given, list):
+            kept = self.__dict__.setdefault('_kept', [])
+            kept.append((what, given, list(given)))
+            del kept[:-40]
+
+    def _check_handed(self):
+        for what, given, was in self.__dict__.get('_kept', []):
+            if given != was and not any(a[0] == 'macro' and 'handed out' in a[1] for a in self.anomalies):
+                self.anomalies.append(['macro', 'a list handed out earlier (%s) changed afterwards: it said %s, it says %s now'
+                                       % (what, json.dumps(was, default=repr)[:160], json.dumps(given, default=repr)[:160])])
+
     def world_json(self):
+        self._check_handed()
         w = {'slots': [self.slot_json(i) for i in range(len(self.slots))],
              'callbacks': [[e.j if isinstance(e, Snap) else enc_event(e) for e in cb] for cb in self.callbacks]}
         if self.anomalies:
@@ -379,8 +393,7 @@ class ImplWorld:
             for key, given in (('entered', ms.entered_states), ('exited', ms.exited_states), ('sent', ms.sent_events),
                                ('transitions', ms.transitions)):
                 agg[key] = list(given)
-                if isinstance(given, list):
-                    given.clear()       # (a list of the client's own: the macro step keeps what it says)
+                self._handed('%s of a macro step of interpreter %d' % (key, slot), given)
             agg['sent'] = [enc_event(e) for e in agg['sent']]
             agg['transitions'] = [self.tid(slot, t) for t in agg['transitions']]
             agg['event'] = enc_event(ms.event)
